@@ -22,6 +22,7 @@ CHECKS = {
     "C16": ("harness.checks.packetfam", "model_checking"),
     "C17": ("harness.checks.code8b10b", "model_checking"),
     "C18": ("harness.checks.secded", "model_checking"),
+    "C19": ("harness.checks.periphfam", "model_checking"),
     "C20": ("harness.checks.pll", "model_checking"),
 }
 
